@@ -249,6 +249,19 @@ class SyncedList(SyncedCollection, MutableSequence):
                 [self._from_base(data=value, parent=self) for value in iterable_data]
             )
 
+    # The mixin implementations of pop and reverse are composed of several
+    # separately synchronized operations, so they are not atomic with respect
+    # to other writers.
+
+    def pop(self, index=-1):  # noqa: D102
+        with self._load_and_save, self._suspend_sync:
+            ret = self._data.pop(index)
+        return ret
+
+    def reverse(self):  # noqa: D102
+        with self._load_and_save, self._suspend_sync:
+            self._data.reverse()
+
     def remove(self, value):  # noqa: D102
         with self._load_and_save, self._suspend_sync:
             self._data.remove(self._from_base(data=value, parent=self))
